@@ -270,3 +270,35 @@ func init() {
 			Quick: s.q, Thorough: s.t, Desc: s.desc, Run: s.run, Check: pubsubCheck})
 	}
 }
+
+// S-last-leaves: the only counted subscriber is told to quit at any point of a Send while a new
+// subscriber joins concurrently (and would receive whatever reaches the channel).
+func psLastLeaves() {
+	e := newPsEnv()
+	qa := make(chan struct{})
+	a := make(chan struct{})
+	e.uwg.Add(1)
+	go e.manualSub(1, 1, qa, a)
+	<-a
+	go func() {
+		vrt.Log("quit", 1)
+		close(qa)
+	}()
+	e.swg.Add(1)
+	go e.sender(1)
+	e.uwg.Add(1)
+	go e.manualSub(2, 1, e.quit, nil)
+	e.finish()
+}
+
+func init() {
+	for _, delay := range []bool{false, true} {
+		name, q, t := "S-last-leaves", 2, 3
+		if delay {
+			name, q, t = "S-last-leaves-d", 3, 5
+		}
+		vrt.Register(&vrt.Scenario{Name: name, Props: []string{"C06:deliver-", "C07", "C11:race", "C12:goroutine-leak"},
+			Quick: q, Thorough: t, Desc: "the only counted subscriber leaves at any point of a Send while a new subscriber joins concurrently",
+			Opts: vrt.Options{Delay: delay}, Run: psLastLeaves, Check: pubsubCheck})
+	}
+}
